@@ -761,8 +761,11 @@ def complete_ensemble_sift(X, nensembles=4, ensemble_noise=.2,
     # Compute the noise processes - large matrix here...
     noise = np.random.random_sample((X.shape[0], nensembles)) * noise_scaling
 
-    # Do a normal ensemble sift to obtain the first IMF
-    args = [(X, noise_scaling, noise[:, ii, None], noise_mode, sift_thresh,
+    # Do a normal ensemble sift to obtain the first IMF. The noise matrix is
+    # already scaled: it is added as it is (noise_scaling=None), as in every
+    # later stage - scaling it a second time makes the first-stage noise
+    # proportional to the square of the signal amplitude.
+    args = [(X, None, noise[:, ii, None], noise_mode, sift_thresh,
              1, ii, imf_opts, envelope_opts, extrema_opts)
             for ii in range(nensembles)]
     res = p.starmap(_sift_with_noise, args)
